@@ -201,6 +201,39 @@ theorem sim_error_len_le_1232 (rev : Rev) (localIa rn : Nat) (rh : Bytes) (k : E
     rw [List.length_append, encodeHeader_length]
     exact error_len_le_1232 k raw _ _ (by omega)
 
+/-- pocketscion's router answers a well-formed echo request addressed to it with exactly the echo reply: same identifier,
+    sequence number and data, sent from the router to the requester over the reversed path (unless the requester's
+    address is multicast, in which case nothing is sent) -/
+theorem sim_echo_reply (rev : Rev) (localIa localIf rn : Nat) (rh : Bytes) (p : Pkt) (code c1 c2 : UInt8) (ident seq : Nat)
+    (data : Bytes) (pt : Nat) (path : Bytes)
+    (hnh : p.nextHdr = PROTO_SCMP) (hpl : p.payload = echoWire TYPE_EchoRequest code c1 c2 ident seq data)
+    (hi : ident < 65536) (hs : seq < 65536) (hck : scmpChecksumOk p = true)
+    (hrev : rev p.pathType p.path = some (pt, path)) (hsrc : knownHost p.addr.srcNib = true)
+    (hmc : srcMulticast p.addr = false) :
+    ∃ r, simHandleScmp rev localIa localIf rn rh p = .reply r ∧
+      parseMsg r.payload = some (.echoReply ident seq data) ∧
+      r.addr.dstIa = p.addr.srcIa ∧ r.addr.dstNib = p.addr.srcNib ∧ r.addr.dstHost = p.addr.srcHost ∧
+      r.addr.srcIa = localIa ∧ r.addr.srcHost = rh ∧ r.pathType = pt ∧ r.path = path := by
+  have ha := asScmp_echoRequest p code c1 c2 ident seq data hnh hpl hi hs
+  have hparse : parseMsg p.payload = some (.echoRequest ident seq data) := by
+    unfold asScmp at ha; rw [if_neg (by simp [hnh])] at ha; exact ha
+  have hne : PROTO_SCMP ≠ PROTO_UDP := by decide
+  have hcl : classifyOk p = true := by simp [classifyOk, hnh, hne, hparse]
+  have hnoerr : simIsError p = false := by
+    simp [simIsError, hnh, hparse, Msg.isKnownError, Msg.ty, TYPE_EchoRequest]
+  refine ⟨{ nextHdr := PROTO_SCMP,
+            addr := { dstIa := p.addr.srcIa, srcIa := localIa, dstNib := p.addr.srcNib, srcNib := rn, dstHost := p.addr.srcHost, srcHost := rh },
+            pathType := pt, path := path,
+            payload := echoMsg TYPE_EchoReply ident seq data
+              { dstIa := p.addr.srcIa, srcIa := localIa, dstNib := p.addr.srcNib, srcNib := rn, dstHost := p.addr.srcHost, srcHost := rh } },
+    ?_, ?_, rfl, rfl, rfl, rfl, rfl, rfl, rfl⟩
+  · simp [simHandleScmp, ha, hck, simMaybeReply, hcl, hnoerr, hsrc, hmc, hrev]
+  · obtain ⟨x, y, hw⟩ := echoMsg_eq_wire TYPE_EchoReply ident seq data
+      { dstIa := p.addr.srcIa, srcIa := localIa, dstNib := p.addr.srcNib, srcNib := rn, dstHost := p.addr.srcHost, srcHost := rh }
+    simp only []
+    rw [hw, parse_echo _ _ _ _ _ _ _ hi hs (Or.inr rfl)]
+    simp [TYPE_EchoReply, TYPE_EchoRequest]
+
 /-! ## errors reach the receivers; datagram delivery is unaffected -/
 
 /-- **errors_reach_receivers** (known kinds): a well-sized SCMP message of one of the five known error kinds is passed to
